@@ -590,10 +590,53 @@ let c08 (payload : string) : string =
   let st = raw_of_bytes s.stream in
   Printf.sprintf "frames=%s stream=%d:%s" frames (String.length st) (Digest.to_hex (Digest.string st))
 
+
+(* ---------------- C09: end-to-end data path ---------------- *)
+let c09 (payload : string) : string =
+  (* e2e <ser> <ct> <seq> <ow> <path> <meth> <reqmeta (wire order)> <args enc> <zip(args) or -> <tap 0|1>
+         <reply enc> <resmeta (wire order)> <zip(reply) or ->
+     codecs are the identity on byte strings (the harness supplies the real codec's output); the compressor
+     returns what was observed on the wire (checked by the harness to unzip to the encoded bytes) *)
+  let pl s = (match String.split_on_char '~' s with
+      | [a; n; b] -> bytes_of_hex a @ List.init (int_of_string n) (fun _ -> n_of_int 0x78) @ bytes_of_hex b
+      | _ -> bytes_of_hex s) in
+  let show_meta_sorted kvs =
+    let l = List.map (fun (k, v) -> (raw_of_bytes k, raw_of_bytes v)) kvs in
+    let l = List.sort compare l in
+    String.concat "," (List.map (fun (k, v) -> hex_of_raw k ^ ":" ^ hex_of_raw v) l) in
+  let md5b b = let r = raw_of_bytes b in Printf.sprintf "%d:%s" (String.length r) (Digest.to_hex (Digest.string r)) in
+  match split_on ' ' payload with
+  | ["e2e"; ser; ct; seq; ow; path; meth; reqmeta; args; zipreq; tap; reply; resmeta; zipres] ->
+    let cenc _ v = Some v and cdec _ b = Some b in
+    let args = pl args and reply = pl reply in
+    let k = { k_ser = n_of_dec ser; k_ct = n_of_dec ct; k_seq = n_of_dec seq; k_path = bytes_of_hex path;
+              k_meth = bytes_of_hex meth; k_meta = parse_meta reqmeta; k_args = args; k_oneway = (ow = "1") } in
+    let env_of z = (fun (_ : n) -> if z = "-" then None
+                     else Some { c_zip = (fun _ -> Some (bytes_of_hex z)); c_unzip = (fun _ -> None) }) in
+    let frame_of env m =
+      let l = int_of_n (encode_len env m) in
+      encode_pooled env (List.init l (fun _ -> N0)) m in
+    (match client_req cenc k with
+     | None -> "req=unencodable"
+     | Some req ->
+       let (ha, hm) = handler_view cdec req in
+       let hview = Printf.sprintf "hview=%s|%s" (match ha with Some a -> md5b a | None -> "undecodable") (show_meta_sorted hm) in
+       let reqs = if tap = "1" then Printf.sprintf "req=%s:%s " (show_bytes req.m_hdr) (md5b (frame_of (env_of zipreq) req)) else "" in
+       if ow = "1" then reqs ^ hview else
+       (match server_res cenc req reply (parse_meta resmeta) with
+        | None -> reqs ^ hview ^ " res=unencodable"
+        | Some res ->
+          let (ca, cm) = caller_view cdec [] res in
+          let cview = Printf.sprintf "cview=%s|%s" (match ca with Some a -> md5b a | None -> "undecodable") (show_meta_sorted cm) in
+          let ress = if tap = "1" then Printf.sprintf " res=%s:%s" (show_bytes res.m_hdr) (md5b (frame_of (env_of zipres) res)) else "" in
+          reqs ^ hview ^ ress ^ " " ^ cview))
+  | _ -> "bad"
+
 let () =
   let prop = Sys.argv.(1) in
   let f = match prop with
     | "C12" -> c12
+    | "C09" -> c09
     | "C08" -> c08
     | "C16" -> c16
     | "C15" | "C19" -> c15
